@@ -41,9 +41,6 @@ def classify(pieces, cuts):
     for i, (a, b, k) in enumerate(offs):
         if k == "G" and i > 0:
             return "D6-garbage-after-frame"
-    for k, b in pieces:
-        if k == "F" and cc.marker_beyond_start(b):
-            return "D5-marker-in-field"
     return None
 
 
